@@ -7,10 +7,10 @@ import check
 TEXT = {
  "C01": ("Seeded search over programs of all eight object kinds (zoo: fd/timer/task/event/raw on all four poll methods; signal, child-wait and inotify scenarios) that unregister, free and re-register objects from any callback; a stale callback is caught by the generation-stamped cookie model, any touch of a caller-freed object by ASan (every object is individually allocated and freed the moment unregister returns).", "4 C01"),
  "C02": ("At every kernel wait that is about to block, poll(2) ground truth of every registered descriptor is compared with the model's handler table (no sleeping on a wanted, ready band); a starvation counter covers loops that never block; handlers are installed, cleared and re-installed from set-up and callbacks, on all four poll methods, with truncated epoll batches.", "4 C02"),
- "C03": ("Every fd callback is checked against the model (registered now, current handler variant, current cookie) and against the poll(2) snapshot taken at the instant the preceding kernel poll returned; at most once per band per iteration; failed register_try on descriptor numbers that are later reused.", "4 C03"),
- "C04": ("Virtual clock: handler entry never before expiry by the loop's own clock, exactly once, and whenever virtual time advances every blocked loop's wake time (wait deadline or armed simulated timerfd) is compared with its earliest model timer (+1 ms rounding, + documented clock staleness); generator pattern that engages and disengages the repeated-deadline kernel-timer path; timer populations from the C05 scenario.", "4 C04"),
+ "C03": ("Every fd callback is checked against the model (registered now, current handler variant, current cookie) and against the poll(2) snapshot taken at the instant the preceding kernel poll returned; at most once per band per iteration; failed register_try on descriptor numbers that are later reused; single-loop plans and multi-loop plans with cross-thread posts.", "4 C03"),
+ "C04": ("Virtual clock: handler entry never before expiry by the loop's own clock, exactly once, and whenever virtual time advances every blocked loop's wake time (wait deadline or armed simulated timerfd) is compared with its earliest model timer (+1 ms rounding, + documented clock staleness); a timer that was due before the previous kernel poll and is still waiting after three complete iterations is starvation by descriptor activity (C04.starved); generator pattern that engages and disengages the repeated-deadline kernel-timer path; timers parked centuries away; timer populations from the C05 scenario.", "4 C04"),
  "C05": ("Timer populations walk across the 128 and 16384 radix boundaries in both directions under the virtual clock (quick: mostly a few hundred, some >16384; thorough: up to 20000); dispatch order inside a round and each timer's fate (fires once, not early, loop never blocks past it, or never after unregister) are compared with a model; victims root/newest/oldest/min/max/random/one-of-the-four-newest, equal keys, already-due timers, timers parked centuries away; small populations in churn-then-drain cycles (a few single removals and arrivals, then everything expires untouched, hundreds of cycles per plan) so that damage to the store surfaces as a late or out-of-order expiry; iv_fatal heap-index reports and ASan on radix nodes.", "4 C05"),
- "C06": ("Task model: exactly once, unregistered on entry, never pending when the loop blocks, never twice between two kernel polls (deferral of a re-registration made by an already-run task), tasks re-registering themselves and each other next to ready descriptors and due timers.", "4 C06"),
+ "C06": ("Task model: exactly once, unregistered on entry, never pending when the loop blocks, never twice between two kernel polls (deferral of a re-registration made by an already-run task), tasks re-registering themselves and each other next to ready descriptors and due timers (whatever is then not serviced is reported by this check), a busy task burst across the expiry the kernel timer is armed for, iv_quit from a task handler followed by iv_main again with everything still registered.", "4 C06"),
  "C07": ("iv_main return / no-return is compared with the model's live-object count (lower and upper bound where library-internal users exist) and quit flag at every kernel wait, every return and at quiescence, including failed register_try / event registrations (EMFILE, EBADF, EPERM, ENOSPC faults) and re-entry after iv_quit; spin, nesting and blocks-with-something-due detectors; every scenario (zoo, pool, popen, wait, signal, inotify, pump) is run, with planned failures of fork, pipe, pthread_create, inotify_init and inotify_add_watch attached to the registering operation (the failed call must leave the loop exactly as it was).", "4 C07"),
  "C08": ("1-3 owner loops with several events each and up to 3 poster threads under a seeded scheduler that preempts at every lock, kick and wait; per post: a handler entry in the owner after the post began, entries <= posts, owner never blocks with a completed undelivered post while no post is in flight, and no undelivered post at quiescence; both wake-up transports.", "4 C08"),
  "C09": ("Raw-event posts from the owner, other threads and simulated signal handlers, bursts up to and beyond a pipe buffer (boundary sizes k*1024), eventfd2 / old eventfd / pipe fallback selected by ENOSYS/EINVAL faults, shrunk pipes; a completed post must be delivered before the owner blocks and by quiescence.", "4 C09"),
@@ -18,9 +18,9 @@ TEXT = {
  "C11": ("Simulated process table (fork/wait4/kill with states, stop/continue, pid reuse preferred); ground truth is the reap log: each interest must receive exactly the statuses reaped for its child while registered, in order, death once and last; kills that reach a reaped or recycled pid, zombies left behind while listeners exist, stranger children.", "4 C11"),
  "C12": ("Work pools under the seeded scheduler with virtual time across the 10 s idle time-out: work function once in a pool thread between the pool's start/stop hooks and never the owner, concurrency <= max_threads, completion once in the owner after the work function returned, NULL-pool items from a task, nothing outstanding at quiescence.", "4 C12"),
  "C13": ("Pool release at any moment (struct freed as put returns -> ASan), drain, start/stop hook pairing per worker thread, every library-created thread exited and joined or detached, owner's iv_main returns without help once everything is gone (a drained released pool or an exited thread that still holds the loop is C13.release); iv_thread_create failing (pthread_create EAGAIN) leaves nothing behind; iv_thread children that return / pthread_exit with and without their own loop keep the creator's iv_main from returning until joined.", "4 C13"),
- "C14": ("The multi-threaded scenario programs (events, raw events, pools, iv_thread, signals, child reaping, concurrent init/deinit) run in a ThreadSanitizer build under the seeded serialising scheduler; the scheduler, harness and simulator are uninstrumented and park threads with raw futexes, so TSan sees only the library's own synchronisation; application-level hand-offs and the kernel's sigaction->handler ordering are declared explicitly; only the named one-way feature flags are suppressed.", "4 C14"),
- "C15": ("Fault enumeration: for each seeded base plan, every k-th wait of every loop thread fails with EINTR (at entry and at wake-up), and every optional facility (epoll_pwait2 ENOSYS/EPERM, ppoll, epoll_create1, timerfd_create, eventfd2 EINVAL/ENOSYS, eventfd, pipe2, splice) is absent from call 1 and from every k-th call; every oracle of the other properties must hold in every variant and in every base plan in which a fault of the plan itself fired; the four poll methods and exclusion-string styles are drawn per plan.", "4 C15"),
- "C17": ("Producer and consumer drivers move a seeded pseudo-random stream through 1-3 pumps between pipes and sockets (splice and read/write mode, short transfers, shrunk pipes, injected errors, back-pressure, EOF at any offset): bytes received are at all times a prefix of bytes produced, EOF only after the last byte, return codes and requested bands checked against the public state after every call, no-progress invocation storms, completion at quiescence after the consumer drained.", "4 C17"),
+ "C14": ("The multi-threaded scenario programs (events, raw events, pools, iv_thread, signals, child reaping, concurrent init/deinit) run in a ThreadSanitizer build under the seeded serialising scheduler; the scheduler, harness and simulator are uninstrumented and park threads with raw futexes, so TSan sees only the library's own synchronisation; application-level hand-offs and the kernel's sigaction->handler ordering are declared explicitly; what the kernel stores into the library's buffers (epoll events, read data, signal masks) is declared as a write of the calling thread; only the named one-way feature flags are suppressed; inotify instances in loop threads of their own are included.", "4 C14"),
+ "C15": ("Fault enumeration: for each seeded base plan, every k-th wait of every loop thread fails with EINTR (at entry and at wake-up), and every optional facility (epoll_pwait2 ENOSYS/EPERM, ppoll, epoll_create1, timerfd_create, eventfd2 EINVAL/ENOSYS, eventfd, pipe2, splice) is absent from call 1 and from every k-th call; every oracle of the other properties must hold in every run of this check, fault variants and fault-free base runs alike (poll method and exclusion style are drawn per plan); the k-th read of the library's own wake-up descriptors fails with EINTR / EAGAIN for every k; the four poll methods and exclusion-string styles are drawn per plan.", "4 C15"),
+ "C17": ("Producer and consumer drivers move a seeded pseudo-random stream through 1-3 pumps (some plans: 21-26 back-pressured pumps at once, more than the per-thread buffer cache holds) between pipes and sockets (splice and read/write mode, short transfers, shrunk pipes, injected errors, back-pressure, EOF at any offset): bytes received are at all times a prefix of bytes produced, EOF only after the last byte, return codes and requested bands checked against the public state after every call, no-progress invocation storms, completion at quiescence after the consumer drained; the application also calls the pump on its own (after set-up, from a recurring timer); is_done() agrees with the return value; RELAY_EOF on a socket output has shut it down when the pump reports done.", "4 C17"),
  "C18": ("Every simulated run of every scenario executes under ASan+UBSan with each object freed at the earliest legal moment; the library allocation ledger and descriptor ledger must be empty whenever no thread holds library state, across init/deinit cycles and thread exits with and without iv_deinit; O_NONBLOCK/FD_CLOEXEC after registration.", "4 C18"),
  "C19": ("popen requests over simulated children (exit at once / on first SIGTERM / ignore SIGTERM / after the n-th signal with delay / between two signals / stopped meanwhile) with the close before, during and after the child's end: the signals the child receives must be SIGTERM x5 then SIGKILL at 5 s steps of virtual time from the close until it ends, none after the reap, no zombie, loop released (C19.release); submissions whose pipe() or fork() fails leave no descriptor, memory or loop object behind.", "4 C19"),
  "C20": ("Real inotify on a scratch tmpfs tree: the exact bytes every read() returned to the library are parsed independently and walked against the model's live-watch set; the handler sequence must match record for record (watch, wd, mask, cookie, name), with watches / other watches / the instance unregistered or registered from inside handlers, one-shot and kernel-removed watches, bursts giving many records per read.", "4 C20"),
